@@ -96,9 +96,11 @@ class Ty:
 STR, INT, BOOL, CODE, NAT = Ty('Str'), Ty('Int'), Ty('Bool'), Ty('Code'), Ty('Nat')
 STXT, SOBJ, DICT, OPTPARAM, PARAM, CTRLFN = Ty('SettingTxt'), Ty('SettingObj'), Ty('Dict'), Ty('OptParam'), Ty('Param'), Ty('CtrlFn')
 CHAR, SELF = Ty('Char'), Ty('Self')          # Self: `self` inside a method of AnsiSetting (the text and the two cache attributes)
+CTLSEQ, SEQS, OPTSTR, PSELF = Ty('CtlSeq'), Ty('Seqs'), Ty('OptStr'), Ty('PSelf')   # PSelf: self in ParsedAnsiControlSequenceString
 LEAN_TY = {'Str': 'Str', 'Int': 'Int', 'Bool': 'Bool', 'Code': 'Code', 'Nat': 'Nat', 'SettingTxt': 'Str', 'SettingObj': 'Setting',
            'Dict': 'PyDict', 'OptParam': 'Option (Nat × Nat)', 'Param': 'Nat × Nat', 'CtrlFn': 'List Nat × Nat',
-           'Char': 'Char', 'Self': 'PyParse.SObj'}
+           'Char': 'Char', 'Self': 'PyParse.SObj', 'CtlSeq': 'CtlSeq', 'Seqs': 'List (Nat × List CtlSeq)', 'OptStr': 'Option Str',
+           'PSelf': 'Parsed', 'Item': 'Int × List CtlSeq'}
 SCALAR = ('Int', 'Str', 'Code')
 MUTABLE = ('List', 'Dict')
 
@@ -175,13 +177,14 @@ def annotation(a):
 
 GLOBALS = {
     'ansi_sep': ('ansi_format', 'Gen.ansiSep', STR),
+    'ansi_control_sequence_introducer': ('ansi_format', 'Gen.csi', STR),
     'AnsiParam.RESET.value': ('ansi_param', '(Gen.paramReset : Int)', INT),
     'AnsiParamEffectFn.APPLY_SETTING': ('ansi_param', 'Gen.fnApply', NAT),
     'AnsiParamEffectFn.CLEAR_SETTING': ('ansi_param', 'Gen.fnClear', NAT),
     'AnsiParamEffectFn.RESET_ALL': ('ansi_param', 'Gen.fnResetAll', NAT),
 }
 ITERABLE_GLOBALS = {'_AnsiControlFn': ('ansi_format', 'Gen.ctrlFns', CTRLFN)}
-CLASSES = {'AnsiSetting': 'ansi_format', 'AnsiParam': 'ansi_param'}
+CLASSES = {'AnsiSetting': 'ansi_format', 'AnsiParam': 'ansi_param', 'AnsiControlSequence': 'ansi_parsing'}
 # items of module-level tuples
 GLOBAL_ITEMS = {('ansi_term_ord_range', 0): ('ansi_format', '(Gen.termLo : Int)', INT),
                 ('ansi_term_ord_range', 1): ('ansi_format', '(Gen.termHi : Int)', INT)}
@@ -192,6 +195,14 @@ SELF_METHODS = {'valid': ('settingValid', 'SettingValid', BOOL, True, True),
                 'to_list': ('settingToList', 'SettingToList', List_(CODE), False, False),
                 'parsable': ('settingParsable', 'SettingParsable', BOOL, True, True),
                 'get_initial_param': ('settingInitialParam', 'SettingInitialParam', OPTPARAM, False, False)}
+# `self` of the translated classes: kind -> Lean type, attributes, translated methods that may be called on it.
+# ParsedAnsiControlSequenceString is the model's `Parsed` itself (`_s` = text, `sequences` = seqs: a dict with
+# the positions as keys, kept in insertion order)
+SELF_INFO = {'Self': dict(lean='PyParse.SObj', fields=SELF_FIELDS, methods=SELF_METHODS),
+             'PSelf': dict(lean='Parsed', fields={'_s': ('text', STR, False), 'sequences': ('seqs', SEQS, False)}, methods={})}
+# parameters whose annotation does not say what they are (`allow_empty_terminator:str=True`, `…:str=None`)
+PARAM_TYPES = {('ParsedAnsiControlSequenceString', '__init__'): [('s', STR), ('allow_empty_terminator', BOOL), ('acceptable_terminators', OPTSTR)]}
+NARROWED = {'OptParam': PARAM, 'OptStr': STR}
 
 
 def lean_str(s):
@@ -211,9 +222,11 @@ class Ctx:
     are there; the lines a ValueError leads to (inside `try … except ValueError`; None: it leaves the function)"""
     def __init__(self, result, ret, cont=None, in_loop=False, handler=None):
         self.result, self.ret, self.cont, self.in_loop, self.handler = result, ret, cont, in_loop, handler
+        self.cond = False
 
     def but(self, **kw):
         c = Ctx(self.result, self.ret, self.cont, self.in_loop, self.handler)
+        c.cond = self.cond
         for a, v in kw.items():
             setattr(c, a, v)
         return c
@@ -289,6 +302,22 @@ class Fn:
                 raise Unsupported(ast.unparse(e))
             return b, '(-%s)' % x, INT
         if isinstance(e, ast.BoolOp):
+            nt = self.none_test(e.values[0], env)
+            if nt is not None and (isinstance(e.op, ast.Or) == nt[1]):
+                # `x is None or f(x)` / `x is not None and f(x)`: f sees x as what it is when not None
+                name = nt[0]
+                others = e.values[1] if len(e.values) == 2 else ast.BoolOp(op=e.op, values=list(e.values[1:]))
+                env2 = dict(env)
+                env2[name] = NARROWED[env[name].r().kind]
+                b, x, t = self.ex(others, env2, test)
+                if t.r().kind != 'Bool':
+                    if not test:
+                        raise Unsupported('and/or of values that are not bool, outside a condition: ' + ast.unparse(e))
+                    b, x = self.truth(others, env2)
+                if b:
+                    raise Unsupported('something that can raise after a short-circuit operator: ' + ast.unparse(e))
+                n = mangle(name)
+                return [], '(match %s with | none => %s | some %s => %s)' % (n, 'true' if isinstance(e.op, ast.Or) else 'false', n, x), BOOL
             parts = []
             binds = []
             for k, v in enumerate(e.values):
@@ -307,6 +336,8 @@ class Fn:
             br, r, tr = self.ex(e.right, env)
             if tl.r().kind == 'Int' and tr.r().kind == 'Int':
                 return bl + br, '(%s %s %s)' % (l, {ast.Add: '+', ast.Sub: '-', ast.Mult: '*'}[type(e.op)], r), INT
+            if tl.r().kind == 'Str' and tr.r().kind == 'Str' and isinstance(e.op, ast.Add):
+                return bl + br, '(%s ++ %s)' % (l, r), STR
             raise Unsupported(ast.unparse(e))
         if isinstance(e, ast.Compare):
             return self.compare(e, env)
@@ -349,7 +380,7 @@ class Fn:
                 return [], text, ty
             b, x, t = self.ex(e.value, env)
             t = t.r()
-            if t.kind != 'List':
+            if t.kind not in ('List', 'Str'):
                 raise Unsupported('subscript of ' + repr(t))
             if isinstance(e.slice, ast.Slice):
                 if e.slice.step is not None:
@@ -369,6 +400,8 @@ class Fn:
             if ti.r().kind != 'Int':
                 raise Unsupported('index ' + ast.unparse(e.slice))
             n = self.tmp()
+            if t.kind == 'Str':         # a str of one character
+                return b + bi + [('bind', 'Py.getIdx %s %s' % (x, i), n)], '[%s]' % n, STR
             return b + bi + [('bind', 'Py.getIdx %s %s' % (x, i), n)], n, t.elem
         if isinstance(e, ast.Call):
             return self.call(e, env)
@@ -392,16 +425,19 @@ class Fn:
 
     def attribute(self, x, t, attr):
         k = t.kind
-        if k == 'Self':
-            if attr in SELF_FIELDS:
-                field, ty, cache = SELF_FIELDS[attr]
+        if k in SELF_INFO:
+            info = SELF_INFO[k]
+            if attr in info['fields']:
+                field, ty, cache = info['fields'][attr]
                 if not cache:
                     return [], '%s.%s' % (x, field), ty
                 n = self.tmp()          # AttributeError when the attribute has not been assigned yet
                 return [('bind', 'PyParse.getAttr %s.%s' % (x, field), n)], n, ty
-            if attr in SELF_METHODS and SELF_METHODS[attr][4]:
+            if attr in info['methods'] and info['methods'][attr][4]:
                 return self.self_call(x, attr)
             raise Unsupported('attribute .%s of self' % attr)
+        if k == 'CtlSeq' and attr in ('sequence', 'terminator'):
+            return [], '%s.%s' % (x, attr), STR
         if attr == 'parsable' and k == 'SettingTxt':
             return [], '(SettingTxt.parsable %s)' % x, BOOL
         if attr == 'parsable' and k == 'SettingObj':
@@ -459,15 +495,21 @@ class Fn:
             if not (isinstance(c, ast.Constant) and c.value is None):
                 raise Unsupported(ast.unparse(e))
             b, x, t = self.ex(a, env)
-            if t.r().kind != 'OptParam':
+            if t.r().kind not in NARROWED:
                 raise Unsupported('is None of %r' % t)
             return b, '(%s).%s' % (x, 'isNone' if isinstance(op, ast.Is) else 'isSome'), BOOL
         bl, l, tl = self.ex(a, env)
         br, r, tr = self.ex(c, env)
         tl, tr = tl.r(), tr.r()
         if isinstance(op, (ast.In, ast.NotIn)):
+            x = None
             if tr.kind == 'Dict' and tl.kind == 'Nat':
                 x = '(PyDict.contains %s %s)' % (r, l)
+            elif tr.kind == 'Seqs' and tl.kind == 'Int':
+                x = '(PyParse.seqsHas %s %s)' % (r, l)
+            elif tr.kind == 'Str' and tl.kind == 'Str':
+                x = '(PyParse.strIn %s %s)' % (l, r)
+            if x is not None:
                 return bl + br, x if isinstance(op, ast.In) else '(!%s)' % x, BOOL
             raise Unsupported(ast.unparse(e))
         if isinstance(op, (ast.Eq, ast.NotEq)):
@@ -527,9 +569,19 @@ class Fn:
                 return b + [('opt', conv % x, n)], n, INT
             if f.id == 'ord' and len(e.args) == 1:
                 b, x, t = self.ex(e.args[0], env)
+                if t.r().kind == 'Str':         # TypeError unless it has one character
+                    n = self.tmp()
+                    return b + [('bind', 'PyParse.ordStr %s' % x, n)], n, INT
                 if t.r().kind != 'Char':
                     raise Unsupported('ord() of %r' % t)
                 return b, '((%s).toNat : Int)' % x, INT
+            if f.id == 'AnsiControlSequence' and len(e.args) == 2:
+                self.need_import('AnsiControlSequence', CLASSES['AnsiControlSequence'])
+                b1, x1, t1 = self.ex(e.args[0], env)
+                b2, x2, t2 = self.ex(e.args[1], env)
+                if t1.r().kind != 'Str' or t2.r().kind != 'Str':
+                    raise Unsupported(ast.unparse(e))
+                return b1 + b2, '(CtlSeq.mk %s %s)' % (x1, x2), CTLSEQ
             if f.id == 'hasattr' and len(e.args) == 2 and isinstance(e.args[1], ast.Constant) and e.args[1].value in SELF_FIELDS \
                     and SELF_FIELDS[e.args[1].value][2]:
                 b, x, t = self.ex(e.args[0], env)
@@ -575,7 +627,7 @@ class Fn:
                 return b + [('bind', 'PyParse.split1 %s %s' % (x, args[0][1]), n)], n, List_(STR)
             if f.attr == 'isdigit' and k == 'Str' and not args:
                 return b, '(Py.isdigit %s)' % x, BOOL
-            if k == 'Self' and f.attr in SELF_METHODS and not SELF_METHODS[f.attr][4] and not args:
+            if k in SELF_INFO and f.attr in SELF_INFO[k]['methods'] and not SELF_INFO[k]['methods'][f.attr][4] and not args:
                 b2, x2, t2 = self.self_call(x, f.attr)
                 return b + b2, x2, t2
             if f.attr == 'seq_starts_with_fn' and k == 'CtrlFn' and len(args) == 1:
@@ -623,6 +675,8 @@ class Fn:
                 add(t.value.id, 'item' if k == 'bind' else 'del')
             elif isinstance(t, ast.Attribute) and isinstance(t.value, ast.Name) and k == 'bind':
                 add(t.value.id, 'bind')
+            elif isinstance(t, ast.Subscript) and isinstance(t.value, ast.Attribute) and isinstance(t.value.value, ast.Name):
+                add(t.value.value.id, 'bind')        # self.sequences[k] = …
             else:
                 raise Unsupported('store into ' + ast.unparse(t))
         for s in stmts:
@@ -641,6 +695,13 @@ class Fn:
             elif isinstance(s, ast.Expr) and isinstance(s.value, ast.Call) and isinstance(s.value.func, ast.Attribute) \
                     and isinstance(s.value.func.value, ast.Name) and s.value.func.attr in ('append', 'extend', 'insert', 'pop', 'remove', 'clear', 'sort', 'reverse', 'update', 'setdefault', 'popitem'):
                 add(s.value.func.value.id, 'append')
+            elif isinstance(s, ast.Expr) and isinstance(s.value, ast.Call) and isinstance(s.value.func, ast.Attribute) \
+                    and s.value.func.attr == 'append' and isinstance(s.value.func.value, ast.Subscript) \
+                    and isinstance(s.value.func.value.value, ast.Attribute) and isinstance(s.value.func.value.value.value, ast.Name):
+                add(s.value.func.value.value.value.id, 'bind')      # self.sequences[k].append(…)
+            elif isinstance(s, ast.While):
+                self.stores(s.body, out)
+                self.stores(s.orelse, out)
             elif isinstance(s, ast.If):
                 self.stores(s.body, out)
                 self.stores(s.orelse, out)
@@ -656,7 +717,7 @@ class Fn:
                     self.stores(h.body, out)
                 self.stores(s.orelse, out)
                 self.stores(s.finalbody, out)
-            elif isinstance(s, (ast.While, ast.With, ast.FunctionDef, ast.ClassDef, ast.Global, ast.Nonlocal, ast.Import, ast.ImportFrom, ast.Match)):
+            elif isinstance(s, (ast.With, ast.FunctionDef, ast.ClassDef, ast.Global, ast.Nonlocal, ast.Import, ast.ImportFrom, ast.Match)):
                 raise Unsupported(type(s).__name__)
         return out
 
@@ -698,11 +759,25 @@ class Fn:
             if tc.kind == 'Dict' and tk.r().kind == 'Nat' and t.r().kind == 'SettingObj':
                 return lines + ['let %s : PyDict := (PyDict.insert %s %s %s)' % (mangle(name), mangle(name), k, x)]
         if isinstance(target, ast.Attribute) and isinstance(target.value, ast.Name) and target.value.id in env \
-                and env[target.value.id].r().kind == 'Self' and target.attr in SELF_FIELDS and SELF_FIELDS[target.attr][2]:
-            field, ty, _ = SELF_FIELDS[target.attr]
+                and env[target.value.id].r().kind in SELF_INFO and target.attr in SELF_INFO[env[target.value.id].r().kind]['fields']:
+            info = SELF_INFO[env[target.value.id].r().kind]
+            field, ty, cache = info['fields'][target.attr]
+            if ty.kind == 'Seqs' and t.r().kind == 'Dict' and x == '([] : PyDict)':
+                x, t = '([] : %s)' % lean_ty(SEQS), SEQS          # `{}`
             unify(t, ty, 'for ' + ast.unparse(target))
             n = mangle(target.value.id)
-            return ['let %s : PyParse.SObj := { %s with %s := some %s }' % (n, n, field, x)]
+            return ['let %s : %s := { %s with %s := %s }' % (n, info['lean'], n, field, 'some %s' % x if cache else x)]
+        if isinstance(target, ast.Subscript) and isinstance(target.value, ast.Attribute) and not isinstance(target.slice, ast.Slice):
+            # self.sequences[k] = v
+            bo, xo, to = self.ex(target.value, env)
+            bk, kx, tk = self.ex(target.slice, env)
+            if bo or any(kind == 'opt' for kind, _, _ in bk) or not isinstance(target.value.value, ast.Name):
+                raise Unsupported('assignment to ' + ast.unparse(target))
+            if to.r().kind == 'Seqs' and tk.r().kind == 'Int':
+                unify(t, List_(CTLSEQ), 'for ' + ast.unparse(target))
+                n = self.tmp()
+                return self.wrap(bk, [], None) + ['(PyParse.seqsSet %s %s %s).bind fun %s =>' % (xo, kx, x, n)] + \
+                    self.assign(target.value, n, SEQS, env)
         raise Unsupported('assignment to ' + ast.unparse(target))
 
     def value_for_store(self, e, env):
@@ -728,24 +803,32 @@ class Fn:
             env = dict(env)
             return self.wrap(b, self.assign(s.targets[0], x, t, env) + go(env), ctx)
         if isinstance(s, ast.AnnAssign):
-            if s.value is None or not isinstance(s.target, ast.Name):
+            if s.value is None or not isinstance(s.target, (ast.Name, ast.Attribute)):
                 raise Unsupported(ast.unparse(s))
             b, x, t = self.value_for_store(s.value, env)
-            ann = annotation(s.annotation)
-            if len(ann) != 1:
-                raise Unsupported(ast.unparse(s))
-            unify(t, ann[0], 'annotation of ' + s.target.id)
+            if isinstance(s.target, ast.Name):
+                ann = annotation(s.annotation)
+                if len(ann) != 1:
+                    raise Unsupported(ast.unparse(s))
+                unify(t, ann[0], 'annotation of ' + s.target.id)
             env = dict(env)
             return self.wrap(b, self.assign(s.target, x, t, env) + go(env), ctx)
         if isinstance(s, ast.AugAssign):
-            if not (isinstance(s.target, ast.Name) and isinstance(s.op, (ast.Add, ast.Sub)) and s.target.id in env and env[s.target.id].r().kind == 'Int'):
+            # target op= value: the target is read first (a name or an attribute of self: reading cannot raise here)
+            if not (isinstance(s.target, (ast.Name, ast.Attribute)) and isinstance(s.op, (ast.Add, ast.Sub))):
                 raise Unsupported(ast.unparse(s))
+            bt, n, tt = self.ex(s.target, env)
             b, x, t = self.ex(s.value, env)
-            if t.r().kind != 'Int':
+            if bt:
+                raise Unsupported(ast.unparse(s))
+            if tt.r().kind == 'Int' and t.r().kind == 'Int':
+                new, ty = '(%s %s %s)' % (n, '+' if isinstance(s.op, ast.Add) else '-', x), INT
+            elif tt.r().kind == 'Str' and t.r().kind == 'Str' and isinstance(s.op, ast.Add):
+                new, ty = '(%s ++ %s)' % (n, x), STR
+            else:
                 raise Unsupported(ast.unparse(s))
             env = dict(env)
-            n = mangle(s.target.id)
-            return self.wrap(b, self.bind_name(s.target.id, '(%s %s %s)' % (n, '+' if isinstance(s.op, ast.Add) else '-', x), INT, env) + go(env), ctx)
+            return self.wrap(b, self.assign(s.target, new, ty, env) + go(env), ctx)
         if isinstance(s, ast.Delete):
             if len(s.targets) != 1:
                 raise Unsupported(ast.unparse(s))
@@ -769,13 +852,31 @@ class Fn:
                 v = self.coerce(x, t, env[name].r().elem)
                 env = dict(env)
                 return self.wrap(b, self.bind_name(name, '(%s ++ [%s])' % (mangle(name), v), env[name], env) + go(env), ctx)
+            if isinstance(c, ast.Call) and isinstance(c.func, ast.Attribute) and c.func.attr == 'append' and len(c.args) == 1 and not c.keywords \
+                    and isinstance(c.func.value, ast.Subscript) and isinstance(c.func.value.value, ast.Attribute) \
+                    and not isinstance(c.func.value.slice, ast.Slice):
+                # self.sequences[k].append(v): the list inside the dictionary grows
+                tgt = c.func.value
+                bo, xo, to = self.ex(tgt.value, env)
+                bk, kx, tk = self.ex(tgt.slice, env)
+                bv, vx, tv = self.ex(c.args[0], env)
+                if bo or to.r().kind != 'Seqs' or tk.r().kind != 'Int' or tv.r().kind != 'CtlSeq':
+                    raise Unsupported(ast.unparse(s))
+                n = self.tmp()
+                env = dict(env)
+                return self.wrap(bk + bv, ['(PyParse.seqsAppend %s %s %s).bind fun %s =>' % (xo, kx, vx, n)] +
+                                 self.assign(tgt.value, n, SEQS, env) + go(env), ctx)
             if isinstance(c, ast.Call):               # evaluated for what it may raise
                 b, x, t = self.ex(c, env)
                 return self.wrap(b, go(env), ctx)
             raise Unsupported(ast.unparse(s))
+        if isinstance(s, ast.Return) and getattr(ctx, 'cond', False):       # the value of a loop condition
+            return ctx.ret('true' if s.value.value else 'false')
         if isinstance(s, ast.Return):
             if s.value is None:
                 raise Unsupported('return without a value')
+            if ctx.ret is None:
+                raise Unsupported('return inside while')
             if isinstance(s.value, ast.Constant) and s.value.value is None:
                 if not self.ret_optional:
                     raise Unsupported('return None')
@@ -803,6 +904,8 @@ class Fn:
             return self.try_(s, rest, env, k, ctx)
         if isinstance(s, ast.For):
             return self.for_(s, rest, env, k, ctx)
+        if isinstance(s, ast.While):
+            return self.while_(s, rest, env, k, ctx)
         raise Unsupported(type(s).__name__ + ': ' + ast.unparse(s).split('\n')[0])
 
     # several ways on, one continuation ---------------------------------------------------------------
@@ -910,7 +1013,7 @@ class Fn:
                 is_none = not is_none
             a, b = (body, orelse) if is_none else (orelse, body)      # a: None
             e_some = dict(env)
-            e_some[name] = PARAM
+            e_some[name] = NARROWED[env[name].r().kind]
             n = mangle(name)
 
             def assemble(outs):
@@ -929,7 +1032,7 @@ class Fn:
     def none_test(self, e, env):
         if isinstance(e, ast.Compare) and len(e.ops) == 1 and isinstance(e.ops[0], (ast.Is, ast.IsNot)) and isinstance(e.left, ast.Name) \
                 and isinstance(e.comparators[0], ast.Constant) and e.comparators[0].value is None \
-                and e.left.id in env and env[e.left.id].r().kind == 'OptParam':
+                and e.left.id in env and env[e.left.id].r().kind in NARROWED:
             return e.left.id, isinstance(e.ops[0], ast.Is)
         return None
 
@@ -989,6 +1092,18 @@ class Fn:
             self.need_import(it.id, mod)
             item_pat = mangle(s.target.id)
             targets = {s.target.id: item_ty}
+        elif isinstance(it, ast.Call) and isinstance(it.func, ast.Attribute) and it.func.attr == 'items' and not it.args and not it.keywords \
+                and isinstance(s.target, ast.Tuple) and len(s.target.elts) == 2 and all(isinstance(x, ast.Name) for x in s.target.elts) \
+                and s.target.elts[0].id != s.target.elts[1].id:
+            # the entries of `self.sequences`, in insertion order; the body does not change self
+            it_binds, xd, td = self.ex(it.func.value, env)
+            if td.r().kind != 'Seqs' or 'self' in body_stores:
+                raise Unsupported('for %s in %s' % (ast.unparse(s.target), ast.unparse(it)))
+            k_n, v_n = s.target.elts[0].id, s.target.elts[1].id
+            item_ty, item_pat = Ty('Item'), 'it_'
+            targets = {k_n: INT, v_n: List_(CTLSEQ)}
+            pre = ['let %s : Int := it_.1' % mangle(k_n), 'let %s : List CtlSeq := it_.2' % mangle(v_n)]
+            over = '(PyParse.seqsItems %s)' % xd
         elif isinstance(s.target, ast.Name):
             # a list or a str, evaluated once before the loop
             it_binds, over, t_it = self.ex(it, env)
@@ -1060,6 +1175,61 @@ class Fn:
             after[-1] += ')'
         return self.wrap(it_binds, head + body + tail + after, ctx)
 
+    def while_(self, s, rest, env, k, ctx):
+        """while <test>: <body> -> `PyParse.whileM fuel_ <test> <body> <state>`: the test and the rounds as functions
+        of the state (the variables the body assigns); `fuel_`, a parameter of the generated function, bounds the
+        number of rounds — running out of it is `Exc.outside`, and the theorem over the function says from which
+        value of `fuel_` on that does not happen"""
+        if s.orelse:
+            raise Unsupported('while … else')
+        if ctx.handler is not None:
+            raise Unsupported('a loop inside try')
+        for st in s.body:
+            for n in ast.walk(st):
+                if isinstance(n, (ast.Return, ast.Break)):
+                    raise Unsupported('return/break inside while')
+        body_stores = self.stores(s.body)
+        state = [n for n in body_stores if n in env]
+        if not state:
+            raise Unsupported('a loop that assigns nothing')
+        self.uses_fuel = True
+
+        def parts():
+            names = [mangle(n) for n in state]
+            st_ty = ' × '.join(lean_ty(env[n], True) for n in state)
+            tup = names[0] if len(names) == 1 else '(%s)' % ', '.join(names)
+
+            def yield_state(env_b):
+                for n in state:
+                    unify(env_b[n], env[n], 'for %s at the end of a round' % n)
+                return ['.ok %s' % tup]
+            inner = Ctx(st_ty if len(names) == 1 else '(%s)' % st_ty, None, yield_state, True)
+            body = self.block(s.body, dict(env), yield_state, inner)
+            cctx = Ctx('Bool', lambda x: ['.ok %s' % x])
+            cctx.cond = True
+            test = ast.If(test=s.test, body=[ast.Return(value=ast.Constant(value=True))], orelse=[ast.Return(value=ast.Constant(value=False))])
+            cond = self.if_(test, [], dict(env), lambda e: [], cctx)
+            return names, st_ty, tup, cond, body
+        saved = (self.ntmp, self.njoin, self.nmark)
+        parts()
+        self.ntmp, self.njoin, self.nmark = saved
+        state = sorted(state, key=lambda n: lean_ty(env[n]))
+        names, st_ty, tup, cond, body = parts()
+
+        def fn(lines):
+            if len(names) == 1:
+                head = ['(fun (%s : %s) =>' % (names[0], st_ty)]
+            else:
+                head = ['(fun (st_ : %s) =>' % st_ty, '    match st_ with', '    | %s =>' % tup]
+            lines = ind(lines, 4)
+            lines[-1] += ')'
+            return ind(head + lines)
+        if len(names) == 1:
+            tail = ['  %s).bind fun %s =>' % (tup, names[0])]
+        else:
+            tail = ['  %s).bind fun st_ =>' % tup, 'match st_ with', '| %s =>' % tup]
+        return ['(PyParse.whileM fuel_'] + fn(cond) + fn(body) + tail + self.block(rest, dict(env), k, ctx)
+
     # -- the function ---------------------------------------------------------------------------------
 
     def lean(self, lean_name, doc):
@@ -1069,11 +1239,14 @@ class Fn:
             raise Unsupported('signature')
         st = self.stores(fn.body)
         self.locals = set(st) | {p for p, _ in self.params}
-        self.mutates_self = 'self' in st and any(p == 'self' and t.r().kind == 'Self' for p, t in self.params)
+        self_kind = [t.r().kind for p, t in self.params if p == 'self' and t.r().kind in SELF_INFO]
+        self.mutates_self = 'self' in st and bool(self_kind)
+        self.uses_fuel = False
+        is_init = fn.name == '__init__' and bool(self_kind)
         self.ret_optional = any(isinstance(n, ast.Return) and isinstance(n.value, ast.Constant) and n.value.value is None
                                 for n in ast.walk(fn))
         for n in self.locals:
-            if re.fullmatch(r'(t|k|h)\d+_|st_|ret_|r_', n):
+            if re.fullmatch(r'(t|k|h)\d+_|st_|ret_|r_|it_|fuel_', n):
                 raise Unsupported('a local named like a generated name: ' + n)
         env = {}
         for p, t in self.params:
@@ -1083,18 +1256,38 @@ class Fn:
 
         def fell_off(env_b):
             raise Unsupported('the end of the function can be reached without a return')
-        if self.mutates_self:       # the result and the object afterwards
-            ctx = Ctx('(⟪R⟫ × PyParse.SObj)', lambda x: ['.ok (%s, self)' % x])
+        if is_init:                 # the object once `__init__` has run; its first statements assign every attribute
+            info = SELF_INFO[self_kind[0]]
+            first = [st0 for st0 in fn.body if not (isinstance(st0, ast.Expr) and isinstance(st0.value, ast.Constant))]
+            seen = set()
+            for st0 in first:
+                tg = st0.targets[0] if isinstance(st0, ast.Assign) and len(st0.targets) == 1 else st0.target if isinstance(st0, ast.AnnAssign) else None
+                if not (isinstance(tg, ast.Attribute) and isinstance(tg.value, ast.Name) and tg.value.id == 'self' and
+                        isinstance(st0.value, (ast.Constant, ast.Dict, ast.List))):
+                    break
+                seen.add(tg.attr)
+            if seen != set(info['fields']):
+                raise Unsupported('__init__ does not start by assigning the attributes ' + ', '.join(sorted(info['fields'])))
+            if any(isinstance(n, ast.Return) for n in ast.walk(fn)):
+                raise Unsupported('return in __init__')
+            unify(self.ret, self.params[0][1])
+            ctx = Ctx('⟪R⟫', None)
+            fell_off = lambda env_b: ['.ok self']
+            lines = ['let self : %s := {}' % info['lean']] + self.block(fn.body, env, fell_off, ctx)
         else:
-            ctx = Ctx('⟪R⟫', lambda x: ['.ok %s' % x])
-        lines = self.block(fn.body, env, fell_off, ctx)
+            if self.mutates_self:       # the result and the object afterwards
+                ctx = Ctx('(⟪R⟫ × %s)' % SELF_INFO[self_kind[0]]['lean'], lambda x: ['.ok (%s, self)' % x])
+            else:
+                ctx = Ctx('⟪R⟫', lambda x: ['.ok %s' % x])
+            lines = self.block(fn.body, env, fell_off, ctx)
         text = '\n'.join(ind(lines))
         text = text.replace('⟪R⟫', lean_ty(self.ret, True))
         text = self.resolve_vars(text)
         ret = self.resolve_vars(ctx.result.replace('⟪R⟫', lean_ty(self.ret, True)))
         if re.search(r'⟪', text + ret):
             raise Unsupported('unresolved placeholder')
-        sig = ' '.join('(%s : %s)' % (mangle(p), lean_ty(t)) for p, t in self.params)
+        sig = ' '.join((['(fuel_ : Nat)'] if self.uses_fuel else []) +
+                       ['(%s : %s)' % (mangle(p), lean_ty(t)) for p, t in self.params if not (is_init and p == 'self')])
         return '/-- %s -/\ndef %s %s : Except Exc %s :=\n%s\n' % (doc, lean_name, sig, ret, text)
 
     def resolve_vars(self, text):
@@ -1192,6 +1385,35 @@ def getAttr {α : Type} : Option α → Except Exc α
   | some a => .ok a
   | none => .error .outside
 
+/-- `ord(s)` for a `str`: TypeError unless it has exactly one character -/
+def ordStr : Str → Except Exc Int
+  | [c] => .ok (c.toNat : Int)
+  | _ => .error (.py .typeError)
+
+/-- `sub in s` for two `str` -/
+def strIn (sub s : Str) : Bool := (Py.find s sub).isSome
+
+/-- `while c: b` with a bound on the number of rounds: `Exc.outside` when the bound is used up with `c` still true -/
+def whileM {σ : Type} : Nat → (σ → Except Exc Bool) → (σ → Except Exc σ) → σ → Except Exc σ
+  | 0, cond, _, st => (cond st).bind fun b => if b then .error .outside else .ok st
+  | fuel + 1, cond, body, st => (cond st).bind fun b => if b then (body st).bind (whileM fuel cond body) else .ok st
+
+/-- `k in d` for the dictionary `sequences` (positions as keys, insertion order) and an `int` k -/
+def seqsHas (d : List (Nat × List CtlSeq)) (k : Int) : Bool := decide (0 ≤ k) && d.any (fun kv => kv.1 == k.toNat)
+
+/-- `d[k].append(v)`; KeyError when absent -/
+def seqsAppend (d : List (Nat × List CtlSeq)) (k : Int) (v : CtlSeq) : Except Exc (List (Nat × List CtlSeq)) :=
+  if seqsHas d k then .ok (d.map (fun kv => if kv.1 == k.toNat then (kv.1, kv.2 ++ [v]) else kv)) else .error .key
+
+/-- `d[k] = l`: overwrite in place, or a new last entry; a negative key is outside the model -/
+def seqsSet (d : List (Nat × List CtlSeq)) (k : Int) (l : List CtlSeq) : Except Exc (List (Nat × List CtlSeq)) :=
+  if k < 0 then .error .outside
+  else if seqsHas d k then .ok (d.map (fun kv => if kv.1 == k.toNat then (kv.1, l) else kv))
+  else .ok (d ++ [(k.toNat, l)])
+
+/-- `d.items()` -/
+def seqsItems (d : List (Nat × List CtlSeq)) : List (Int × List CtlSeq) := d.map (fun kv => ((kv.1 : Int), kv.2))
+
 /-- `del d[k]`; KeyError when absent -/
 def dictDel (d : PyDict) (k : Nat) : Except Exc PyDict := if d.contains k then .ok (d.erase k) else .error .key
 
@@ -1202,6 +1424,12 @@ end PyParse
 FUNCS = [('settings_to_dict', None, 'SettingsToDict'), ('parse_graphic_sequence', None, 'ParseGraphicSequence')]
 METHODS = [('valid', 'AnsiSetting', 'SettingValid'), ('to_list', 'AnsiSetting', 'SettingToList'),
            ('parsable', 'AnsiSetting', 'SettingParsable'), ('get_initial_param', 'AnsiSetting', 'SettingInitialParam')]
+PARSING_METHODS = [('__init__', 'ParsedAnsiControlSequenceString', 'Tokenize'), ('formatted_str', 'ParsedAnsiControlSequenceString', 'FormattedStr')]
+CLASS_KIND = {'AnsiSetting': SELF, 'ParsedAnsiControlSequenceString': PSELF}
+# (class, method) -> (Lean name, is a property)
+CLASS_METHODS = {('AnsiSetting', n): (v[0], v[4]) for n, v in SELF_METHODS.items()}
+CLASS_METHODS.update({('ParsedAnsiControlSequenceString', '__init__'): ('tokenizeInit', False),
+                      ('ParsedAnsiControlSequenceString', 'formatted_str'): ('formattedStr', True)})
 EXPECTED = {
     'settingsToDictCode': ('(settings : List Setting) (old_settings_dict : PyDict)', 'PyDict'),
     'parseGraphicSequenceStr': ('(sequence : Str) (add_erroneous : Bool)', '(List Str)'),
@@ -1210,10 +1438,12 @@ EXPECTED = {
     'settingToList': ('(self : PyParse.SObj)', '(List Code)'),
     'settingParsable': ('(self : PyParse.SObj)', '(Bool × PyParse.SObj)'),
     'settingInitialParam': ('(self : PyParse.SObj)', '(Option (Nat × Nat))'),
+    'tokenizeInit': ('(fuel_ : Nat) (s : Str) (allow_empty_terminator : Bool) (acceptable_terminators : Option Str)', 'Parsed'),
+    'formattedStr': ('(self : Parsed)', 'Str'),
 }
 VARIANTS = {'settings_to_dict': ['settingsToDictCode'], 'parse_graphic_sequence': ['parseGraphicSequenceStr', 'parseGraphicSequenceList'],
             'valid': ['settingValid'], 'to_list': ['settingToList'], 'parsable': ['settingParsable'],
-            'get_initial_param': ['settingInitialParam']}
+            'get_initial_param': ['settingInitialParam'], '__init__': ['tokenizeInit'], 'formatted_str': ['formattedStr']}
 
 
 def camel(name):
@@ -1271,12 +1501,20 @@ def translate_function(tree, pyname, modname, cls=None):
         imports = module_imports(tree, modname)
         variants = []
         if cls is not None:
-            if [a.arg for a in fn.args.args] != ['self'] or fn.args.defaults:
+            lean_name, prop = CLASS_METHODS[(cls, pyname)]
+            names = [a.arg for a in fn.args.args]
+            params = [('self', CLASS_KIND[cls])]
+            if (cls, pyname) in PARAM_TYPES:          # the types of the parameters, by name
+                if names[1:] != [n for n, _ in PARAM_TYPES[(cls, pyname)]]:
+                    raise Unsupported('parameters ' + ', '.join(names))
+                params += PARAM_TYPES[(cls, pyname)]
+            elif names != ['self'] or fn.args.defaults:
                 raise Unsupported('a method with parameters')
-            if SELF_METHODS[pyname][4] != is_property:
+            if names[:1] != ['self'] or prop != is_property:
                 raise Unsupported('property or method: not what the callers are translated for')
-            variants.append((SELF_METHODS[pyname][0], [('self', SELF)], '`%s.%s`, statement by statement%s' % (
-                cls, pyname, ': the result and the object afterwards (its cache attributes)' if SELF_METHODS[pyname][3] else '')))
+            variants.append((lean_name, params, '`%s.%s`, statement by statement%s' % (
+                cls, pyname, ': the result and the object afterwards (its cache attributes)'
+                if cls == 'AnsiSetting' and SELF_METHODS[pyname][3] else ': the object it leaves' if pyname == '__init__' else '')))
         else:
             alts = []
             for a in fn.args.args:
@@ -1330,6 +1568,8 @@ def generate(repo, src=None, src_format=None):
     ansi_parsing.py / ansi_format.py of the repository"""
     files = {'Methods/ParsePrims.lean': PRIMS}
     for path, modname, items, what in ((src or os.path.join(repo, SRC), 'ansi_parsing', FUNCS, 'One function of ansi_parsing.py'),
+                                       (src or os.path.join(repo, SRC), 'ansi_parsing', PARSING_METHODS,
+                                        'One method of ParsedAnsiControlSequenceString (ansi_parsing.py)'),
                                        (src_format or os.path.join(repo, SRC_FORMAT), 'ansi_format', METHODS, 'One method of AnsiSetting (ansi_format.py)')):
         try:
             tree = ast.parse(open(path).read())
@@ -1343,7 +1583,7 @@ def generate(repo, src=None, src_format=None):
     return files
 
 
-MODULES = ['ParsePrims'] + [m for _, _, m in FUNCS] + [m for _, _, m in METHODS]
+MODULES = ['ParsePrims'] + [m for _, _, m in FUNCS] + [m for _, _, m in METHODS] + [m for _, _, m in PARSING_METHODS]
 
 
 if __name__ == '__main__':
